@@ -96,7 +96,9 @@ class ResolutionContext:
         self._argument_values = (
             {}
         )  # type: Dict[Tuple[Field, ast.Field], Dict[str, Any]]
-        self._resolver_cache = {}  # type: Dict[Resolver, Resolver]
+        self._resolver_cache = (
+            {}
+        )  # type: Dict[int, Tuple[Resolver, Resolver]]
 
     def add_error(
         self,
